@@ -1785,7 +1785,9 @@ def gate_post_wrap(c, p):
         cond = "false"
         for k in [k for k in c.ex.decls if ".%d|" % c.field("connection/spaces.rs", "PacketSpace", "loss_probes") in k and k.startswith("|in:*call:")]:
             cond = or_(cond, not_(eq(k, bv(0, 32))))
-        r.append(or_(not_(ackv), cond))
+        # ... or for the packet that announces a close (the exemption the property names; finding 14)
+        closing = c.inp(dbg["close"][0], BOOL) if dbg.get("close") else "false"
+        r.append(or_(not_(ackv), cond, closing))
     return and_(*r)
 
 
@@ -1795,7 +1797,7 @@ Q(name="e2_poll_transmit_new_datagram_gate_slice", props=["C07", "C12"], func=r"
   check_stop=True, allowed_panics=r".", ignore_untranslatable=r"^loop at",
   functions=["Connection::poll_transmit (slice: the checks between 'one more datagram is needed' and starting it)"],
   pre=lambda c: and_(ule(c.inp(c.fn.debug["segment_size"][0], BV64), bv(65535)), ule(c.inp(c.fn.debug["num_datagrams"][0], BV64), bv(1 << 20))), post=gate_post_wrap, timeout=600,
-  bounds="from an arbitrary state with segment_size <= 65535 and num_datagrams <= 2^20 (keeps the product cheap for the solver): the code that starts another datagram is reached only if fewer than max_datagrams exist, PathData::anti_amplification_blocked - asked about segment_size * num_datagrams + 1 bytes - said no, and, unless the packet is not ack-eliciting or is a loss probe, bytes in flight + one segment is below the congestion window and the pacer demands no delay; locals through the debug-name table, slice through the source text",
+  bounds="from an arbitrary state with segment_size <= 65535 and num_datagrams <= 2^20 (keeps the product cheap for the solver): the code that starts another datagram is reached only if fewer than max_datagrams exist, PathData::anti_amplification_blocked - asked about segment_size * num_datagrams + 1 bytes - said no, and, unless the packet is not ack-eliciting, is a loss probe or announces a close, bytes in flight + one segment is below the congestion window and the pacer demands no delay; locals through the debug-name table, slice through the source text",
   replay=("conn_poll_transmit_gates_native", lambda m: [dict(mode=k) for k in (0, 1, 2)]))
 
 
@@ -2776,3 +2778,28 @@ Q(name="e2_populate_packet_datagram_loop_slice", props=["C16"], func=r"connectio
   functions=["Connection::populate_packet (slice: one iteration of the DATAGRAM loop and the unblocking that follows it)"], pre=lambda c: "true", post=dl_post,
   bounds="one iteration of the DATAGRAM loop from an ARBITRARY state, `sent_datagrams` included (so: after any number of earlier iterations), plus the code after the loop: the flag that goes into the next iteration is `a datagram was written in this packet so far`, and when the loop ends - because the packet is full or because the next datagram does not fit - Event::DatagramsUnblocked is queued (and send_blocked cleared) exactly when the sender was blocked and at least one datagram went into this packet; DatagramState::write opaque (e2_dgram_write)",
   replay=("conn_datagram_unblock_native", lambda m: [dict(n=1), dict(n=3)]))
+
+
+# ------------------------------------------------------------------ C08 / C12: the closing packet is not held back by congestion control or pacing (slice)
+def cg_post(c, p):
+    st = p.p.state
+    if p.p.outcome not in ("stop", "return"):
+        return "true"
+    dbg = c.fn.debug
+    try:
+        close, blocked = dbg["close"][0], dbg["congestion_blocked"][0]
+    except (KeyError, IndexError):
+        return "false"
+    # leaving through the congestion or pacing exit sets `congestion_blocked`; with a close to announce that must not happen
+    set_here = and_(c.ex.read_key(st, blocked, BOOL).t, not_(c.inp(blocked, BOOL)))
+    return or_(not_(c.inp(close, BOOL)), not_(set_here))
+
+
+Q(name="e2_poll_transmit_close_not_congestion_blocked_slice", props=["C08", "C12"], func=r"connection/mod\.rs:\d+:1: \d+:16>::poll_transmit$",
+  src="connection/mod.rs", within=r"^    pub fn poll_transmit\(", start_line=[r"if num_datagrams >= max_datagrams \{", r"(?#after)// We need to send 1 more datagram and extend the buffer for that\.$"], end_line=[r"if let Some\(mut builder\) = builder_storage\.take\(\) \{", r"(?#loophead)while space_idx < spaces\.len\(\) \{", r"if let Some\(mut builder\) = builder_storage \{"],
+  pure=[r"anti_amplification_blocked$", r"Controller>::window$", r"Index<SpaceId>>::index$", r"RttEstimator::get$", r"current_mtu$"],
+  check_stop=True, allowed_panics=r".", ignore_untranslatable=r"^loop at",
+  functions=["Connection::poll_transmit (slice: the checks between 'one more datagram is needed' and starting it)"],
+  pre=lambda c: and_(ule(c.inp(c.fn.debug["segment_size"][0], BV64), bv(65535)), ule(c.inp(c.fn.debug["num_datagrams"][0], BV64), bv(1 << 20))), post=cg_post, timeout=600,
+  bounds="the same slice as e2_poll_transmit_new_datagram_gate_slice, from an arbitrary state: when a close is to be announced (`close` true) the slice is never left through the congestion-window or pacing exit (the two places that set `congestion_blocked`), whatever is queued besides - only the datagram limit of the call and anti-amplification may stop the closing packet",
+  replay=("conn_close_under_congestion_native", lambda m: [dict(queued=1), dict(queued=0)]))
